@@ -14,6 +14,13 @@ func init() {
 		if err := runFamilies(e, "C06", "underlying", famUnderlying, b, per, 6, nil, nil); err != nil {
 			return err
 		}
-		return runExtSel(e)
+		e.rep.Rule += "; plus extend functions with the same identifier declared in two packages (one line, several lines, patterns, repeated mention): each stays the implementation of its own pair"
+		if err := runFamilies(e, "C06", "extend-pkgs", famExtendPkgs, b, per/2, 5, nil, nil); err != nil {
+			return err
+		}
+		if err := runExtSel(e); err != nil {
+			return err
+		}
+		return runExtList(e)
 	}
 }
